@@ -425,16 +425,17 @@ Proof.
 Qed.
 
 (* ------------------------------------------------------------------------------------------ *)
-(* 3. The stored permutation belongs to the stored seed *)
+(* 3. The stored permutation belongs to the stored seed and to the miner count of the last
+      call that was not ignored *)
 Definition rs_inv (s : rs_state) : Prop :=
-  match rs_permseed s with
+  match rs_permkey s with
   | None => rs_seed s = 0
-  | Some p => p = rs_seed s
+  | Some (p, _) => p = rs_seed s
   end.
 
 Lemma rs_step_inv : forall s o, rs_inv s -> rs_inv (rs_step s o).
 Proof.
-  intros s [seed|seed] H; cbn; [|reflexivity].
+  intros s [seed n|seed n] H; cbn; [|reflexivity].
   destruct (Z.eqb (rs_seed s) 0); [reflexivity|assumption].
 Qed.
 
@@ -447,10 +448,31 @@ Proof.
 Qed.
 
 Lemma rs_perm_matches_seed : forall ops, rs_seed (rs_run ops) <> 0 ->
-  rs_permseed (rs_run ops) = Some (rs_seed (rs_run ops)).
+  exists n, rs_permkey (rs_run ops) = Some (rs_seed (rs_run ops), n).
 Proof.
   intros ops Hs. pose proof (rs_reachable_inv ops) as H. unfold rs_inv in H.
-  destruct (rs_permseed (rs_run ops)); [now subst|contradiction].
+  destruct (rs_permkey (rs_run ops)) as [[p n]|]; [subst; eauto|contradiction].
+Qed.
+
+Lemma rs_run_snoc : forall ops o, rs_run (ops ++ [o]) = rs_step (rs_run ops) o.
+Proof. intros. unfold rs_run. now rewrite fold_left_app. Qed.
+
+(* after SetRandomSeedForNotarizedBlock(seed, n) the permutation is the one of (seed, n), whatever
+   was stored before - also when only the miner count differs *)
+Lemma rs_notarized_call_recomputes : forall ops seed n,
+  rs_permkey (rs_run (ops ++ [RsSetNotarized seed n])) = Some (seed, n) /\
+  rs_seed (rs_run (ops ++ [RsSetNotarized seed n])) = seed.
+Proof. intros. rewrite rs_run_snoc. cbn. auto. Qed.
+
+(* SetRandomSeed(seed, n) does the same on a round without a seed and nothing otherwise *)
+Lemma rs_plain_call : forall ops seed n,
+  (rs_seed (rs_run ops) = 0 -> rs_permkey (rs_run (ops ++ [RsSet seed n])) = Some (seed, n) /\
+                              rs_seed (rs_run (ops ++ [RsSet seed n])) = seed) /\
+  (rs_seed (rs_run ops) <> 0 -> rs_run (ops ++ [RsSet seed n]) = rs_run ops).
+Proof.
+  intros. rewrite rs_run_snoc. cbn. split; intros H.
+  - rewrite H. cbn. auto.
+  - destruct (Z.eqb_spec (rs_seed (rs_run ops)) 0); [contradiction|reflexivity].
 Qed.
 
 (* ------------------------------------------------------------------------------------------ *)
